@@ -445,6 +445,106 @@ func runAttackCommand(c *run.Ctx, s *kit.Summary, prefill string) {
 	ownRecords(s, in, got2, name)
 }
 
+// runEncodeTruncated: `vegeta encode` (in-process through the verif binary) on TRUNCATED input files. Whatever
+// the command returns, what it wrote must decode to exactly the records that were completely written before
+// the cut of its input (the same prefix the decoder itself yields on the cut input), in all three target
+// encodings. Inputs are long (hundreds of records), cut inside the last / a middle record or at a boundary.
+func runEncodeTruncated(c *run.Ctx, r *kit.Rng, s *kit.Summary, n int) {
+	if _, err := os.Stat(c.Vegeta); err != nil {
+		s.Skipped["encode-command: no vegeta binary"]++
+		return
+	}
+	var csvc codec
+	for _, cd := range codecs {
+		if cd.name == "csv" {
+			csvc = cd
+		}
+	}
+	type job struct {
+		from, to codec
+		want     []vegeta.Result
+		out      string
+		where    string
+		cut, len int
+		nrec     int
+	}
+	var jobs []job
+	var ops []string
+	var files []string
+	for i := 0; i < n; i++ {
+		from := codecs[0] // gob twice as often: the only input whose torn tail is an error rather than a plain EOF
+		if i%4 == 2 {
+			from = codecs[1]
+		} else if i%4 == 3 {
+			from = codecs[2]
+		}
+		var rs []vegeta.Result
+		for len(rs) < 300+r.Pick(300) {
+			rs = append(rs, genStream(r, csvc, -1)...) // the CSV domain is the intersection of the three
+		}
+		st, status := encodeStream(from, rs)
+		if status != "ok" {
+			continue
+		}
+		k, where := 0, ""
+		last := len(st.bounds) - 1
+		switch w := r.Pick(6); {
+		case from.name == "csv" || w == 0:
+			j := r.Pick(len(st.bounds))
+			k, where = st.bounds[j], "at a record boundary"
+		case w <= 2:
+			k, where = st.bounds[last-1]+1+r.Pick(st.bounds[last]-st.bounds[last-1]-1), "inside the last record"
+		case w == 3:
+			k, where = st.bounds[last]-1, "one byte before the end"
+		default:
+			j := 1 + r.Pick(last)
+			k, where = st.bounds[j-1]+1+r.Pick(st.bounds[j]-st.bounds[j-1]-1), "inside a middle record"
+		}
+		want, _ := decodePrefix(from, st.data[:k])
+		in := filepath.Join(c.Work, fmt.Sprintf("trunc-%d.in", i))
+		os.WriteFile(in, st.data[:k], 0o644)
+		files = append(files, in)
+		for _, to := range codecs {
+			out := filepath.Join(c.Work, fmt.Sprintf("trunc-%d-%s.out", i, to.name))
+			os.Remove(out)
+			files = append(files, out)
+			jobs = append(jobs, job{from, to, want, out, where, k, len(st.data), len(rs)})
+			ops = append(ops, "encode "+kit.HexS(to.name)+" "+kit.HexS(out)+" "+kit.HexS(in))
+		}
+	}
+	res, err := kit.RunVegeta(c.Vegeta, ops)
+	if err != nil {
+		s.Skipped["encode-command: driver failed"]++
+		return
+	}
+	for i, j := range jobs {
+		data, _ := os.ReadFile(j.out) // no file = nothing written
+		got, term := decodePrefix(j.to, data)
+		s.Case(fmt.Sprint("encode-truncated:", i), true)
+		s.Count("encode-command:truncated-input from=" + j.from.name + " cut " + j.where)
+		if strings.HasPrefix(res[i], "err") {
+			s.Count("encode-command:truncated-input command-returned-error from=" + j.from.name)
+		}
+		bad := len(got) != len(j.want) || (term != "eof" && len(data) > 0)
+		for k := 0; !bad && k < len(got); k++ {
+			bad = !gen.SameResult(&got[k], &j.want[k])
+		}
+		if bad {
+			kind := "prefix_missing_record"
+			if len(got) > len(j.want) {
+				kind = "prefix_extra_record"
+			}
+			s.Violate(kit.Violation{Kind: kind, What: "`vegeta encode` on a truncated input: its output does not hold exactly the records completely written before the cut",
+				Input:    map[string]interface{}{"command": "vegeta encode -to " + j.to.name + " -output OUT IN", "input_codec": j.from.name, "input_records": j.nrec, "input_bytes": j.len, "input_cut_at": j.cut, "cut": j.where, "command_result": res[i]},
+				Expected: fmt.Sprintf("%d records then eof", len(j.want)), Observed: fmt.Sprintf("%d records then %s", len(got), term),
+				Key: map[string]interface{}{"codec": j.from.name, "encode_command": true}})
+		}
+	}
+	for _, f := range files {
+		os.Remove(f)
+	}
+}
+
 // runAttackFlakyPipe: `vegeta attack` writing its results to stdout, stdout being a pipe that is switched
 // to O_NONBLOCK behind the process's back after it started (Go does not poll it then: a full pipe makes
 // write(2) fail with EAGAIN, possibly after a partial write), with large records (45 kB bodies against a
@@ -897,4 +997,5 @@ func runC09(c *run.Ctx, s *kit.Summary) {
 	runAttackComplete(c, s, "old-results")
 	runAttackComplete(c, s, "junk")
 	runEncodeOverwrite(c, r, s, c.N(24, 300))
+	runEncodeTruncated(c, r, s, c.N(24, 240))
 }
